@@ -105,7 +105,8 @@ def machineM : Machine where
     match ws with
     | "manual" :: what :: rest =>
         if (what = "sched" ∨ what = "warm") ∧ cfg.min ≤ cfg.max then
-          ((cfg, r.1), r.2 ++ [Ev.raw (Limit.traceVerdict cfg none ((parseKv rest).str "@tr" "-")).1])
+          let nth := if what = "warm" then 1 else (view m ((parseKv ws).nat "svc" 0)).progs.length
+          ((cfg, r.1), r.2 ++ (Limit.traceReport cfg none nth ((parseKv rest).str "@tr" "-")).1.map Ev.raw)
         else ((cfg, r.1), r.2)
     | _ => ((cfg, r.1), r.2)
   now := fun (_, m) => m.now
